@@ -408,6 +408,8 @@ def _ranges_support(db, rep):
     from rules import C18
     r7 = rep.rule('r7', 'LEXER-RESET (shared with C18): every lexer entry point rebinds the input and re-initialises the position state lex() modifies, so token ranges do not depend on earlier inputs', 4)
     C18.lexer_reset_rule(db, r7, r7, ModSets(db))
+    r9 = rep.rule('r9', 'TOKEN-DATA: an integer literal or a projection / filter index list carries exactly the numbers written, or the token is refused; never a silently wrapped value', 2)
+    token_data_rule(db, r9)
     r8 = rep.rule('r8', 'INNERMOST: FindMinimalNode(root, range) is the deepest node whose range contains the range (none if the root does not contain it)', 1)
     f = db.fn('ccl::rslang::FindMinimalNode', required=False)
     if f is None:
@@ -505,3 +507,114 @@ def _ranges_support(db, rep):
         r8.violation('FindMinimalNode', '%s:%d' % (f.file, f.line), bad)
     else:
         r8.ok('FindMinimalNode', 'innermost containing node on %d (tree, range) cases, including a wrapper that shares the range of its only child' % cases, '%s:%d' % (f.file, f.line))
+
+
+# ---------------------------------------------------------------------------------------------- r9: numbers carried by tokens
+def token_data_rule(db, rule):
+    """The token stream of both lexers, interpreted from LexerBase (Stream's lambda -> lex -> MakeToken -> ParseData -> ToInt / ToTuple ->
+    TokenData::FromIndexSequence) with the scanner's verdict (token kind, matched text) supplied: a literal or an index list either carries
+    exactly the number(s) written or the token is refused (INTERRUPT). Shared with C05 (printing re-parses to the same literals) and C01."""
+    from engine.evalmini import Interp, Obj, NOT_HANDLED, SignedOverflow
+    TID = {e['name']: e['val'] for e in db.enum('ccl::rslang::TokenID')['enumerators']}
+    cases = []
+    for txt, val in (('0', 0), ('7', 7), ('007', 7), ('2147483647', 2147483647), ('2147483648', 2147483648), ('4294967297', 4294967297), ('3000000000', 3000000000), ('99999999999', 99999999999), ('18446744073709551617', 18446744073709551617)):
+        cases.append(('LIT_INTEGER', txt, val))
+    for kind, prefix in (('SMALLPR', 'pr'), ('BIGPR', 'Pr'), ('FILTER', 'Fi')):
+        for seq in ([1], [0], [12], [32767], [32768], [40000], [65537], [1, 2, 3], [1, 65538], [70000, 1], [99999999999]):
+            cases.append((kind, prefix + ','.join(str(x) for x in seq), list(seq)))
+    n_ok = 0
+    for lexer in ('MathLexer', 'AsciiLexer'):
+        base = 'ccl::rslang::detail::LexerBase<ccl::rslang::detail::%s>' % lexer
+        lam = db.fn(base + '::Stream::lambda@29:11', required=False)
+        if lam is None:
+            cands = [f for f in db.functions if f.name.startswith(base + '::Stream::lambda@') and not f.rec.get('dependent')]
+            lam = cands[0] if len(cands) == 1 else None
+        if lam is None:
+            rule.broken('anchor vanished: the token stream lambda of %s' % base)
+            continue
+        bad = None
+        for kind, txt, want in cases:
+            state = {'text': txt.encode()}
+
+            def on_call(it, fn, n, env):
+                cs = n.get('cs') or ''
+                callee = n.get('callee') or ''
+                last = cs.split('::')[-1]
+                k = n['k']
+                if last == 'BaseT' and 'obj' in n:
+                    return it.eval(fn, fn.stmts[n['obj']], env)
+                if last == 'DoLex':
+                    return TID[kind]
+                if last == 'GetText':
+                    return state['text']
+                if last == 'Range' and callee.startswith('ccl::rslang::detail::'):
+                    return Obj(start=0, finish=len(txt))
+                if callee in ('atol', 'atoi', 'atoll', 'std::atol', 'std::atoi', 'std::atoll') and n.get('args'):
+                    s_ = it.eval(fn, fn.stmts[n['args'][0]], env)
+                    s_ = bytes(s_[1][s_[2]:]) if isinstance(s_, tuple) and s_ and s_[0] == 'sptr' else bytes(s_)
+                    digits = b''
+                    for ch in s_:
+                        if 48 <= ch <= 57:
+                            digits += bytes([ch])
+                        else:
+                            break
+                    v = int(digits) if digits else 0
+                    bits = {'atoi': 31, 'atol': 63, 'atoll': 63}[callee.split('::')[-1]]
+                    if v >= 2 ** bits:
+                        raise SignedOverflow('%s("%s"): the value is not representable in the return type (undefined behaviour)' % (callee, digits.decode()))
+                    return v
+                if last == 'c_str' and 'obj' in n:
+                    o = it.eval(fn, fn.stmts[n['obj']], env)
+                    return ('sptr', bytes(o), 0)
+                if last == 'erase' and cs.startswith(('std::basic_string::', 'std::__cxx11::basic_string::')) and 'obj' in n and len(n.get('args', [])) == 2:
+                    o = it.eval(fn, fn.stmts[n['obj']], env)
+                    a, b = (it.eval(fn, fn.stmts[x], env) for x in n['args'])
+                    return bytes(o[:a] + o[a + b:])
+                if callee in ('isdigit', 'std::isdigit') and n.get('args'):
+                    c = it.eval(fn, fn.stmts[n['args'][0]], env)
+                    return int(48 <= c <= 57)
+                if k in ('CXXConstructExpr', 'CXXTemporaryObjectExpr') and (n.get('cls') or '') == 'ccl::rslang::TokenData':
+                    a = [it.eval(fn, fn.stmts[x], env) for x in n.get('args', [])]
+                    if n.get('copyctor') or n.get('movector'):
+                        return a[0]
+                    return Obj(__cls__='TokenData', v=(a[0] if a else None))
+                if k in ('CXXConstructExpr', 'CXXTemporaryObjectExpr') and (n.get('cls') or '') == 'ccl::rslang::Token':
+                    a = [it.eval(fn, fn.stmts[x], env) for x in n.get('args', [])]
+                    if n.get('copyctor') or n.get('movector'):
+                        return a[0]
+                    if len(a) == 3:
+                        return Obj(__cls__='Token', id=a[0], pos=a[1], data=a[2])
+                if cs in ('std::optional::has_value',) and 'reporter' in (fn.stmts[n['obj']].get('txt', '') if 'obj' in n else ''):
+                    return False
+                return NOT_HANDLED
+            it = Interp(db, on_call=on_call, max_steps=200000)
+            this = Obj(__cls__=base, reporter=None, lastRead=TID['INTERRUPT'])
+            try:
+                tok = it.call_lambda(('lambda', lam, {'lex': this}), [])
+            except SignedOverflow as e:
+                bad = bad or ('%s token `%s`: %s' % (kind, txt, e))
+                continue
+            except OutOfFragment as e:
+                rule.broken('token stream of %s outside the evaluable fragment on `%s`: %s' % (lexer, txt, e))
+                bad = None
+                break
+            if not isinstance(tok, Obj) or 'id' not in tok:
+                rule.broken('token stream of %s returned %r' % (lexer, type(tok)))
+                break
+            refused = tok['id'] == TID['INTERRUPT']
+            data = tok['data']['v'] if isinstance(tok.get('data'), Obj) else tok.get('data')
+            fits = (0 <= want < 2 ** 31) if kind == 'LIT_INTEGER' else all(0 <= x < 2 ** 15 for x in want)
+            if refused:
+                if fits and bad is None:
+                    bad = '%s token `%s` is refused although every number fits the token data' % (kind, txt)
+            elif tok['id'] != TID[kind]:
+                bad = bad or '%s token `%s` comes out as token kind %s' % (kind, txt, tok['id'])
+            elif (list(data) if isinstance(data, list) else data) != want:
+                bad = bad or ('the %s token `%s` is accepted carrying %s: the number written is %s (silently wrapped to the width of the token data)' % (kind, txt, data, want if kind == 'LIT_INTEGER' else ','.join(str(x) for x in want)))
+            n_ok += 1
+        else:
+            f = db.fn(base + '::ParseData', required=False) or lam
+            if bad:
+                rule.violation('token-data:' + lexer, '%s:%d' % (f.file, f.line), bad)
+            else:
+                rule.ok('token-data:' + lexer, '%d literal / index tokens carry exactly the numbers written or are refused' % len(cases), '%s:%d' % (f.file, f.line))
